@@ -44,6 +44,7 @@ package stats
 
 //@ func (c *Collector) updateLatencyBounds
 //@   property C19
+//@   safety
 //@   requires data != nil
 //@   modifies data.minLatency, data.maxLatency
 //@   loop 1 invariant true
